@@ -30,7 +30,7 @@ tvars == <<vars, l, sub>>
 
 \* ---- observations as model values
 SetOf(seq) == {seq[i] : i \in DOMAIN seq}
-ObsOf(o) == [diag |-> {[m |-> d.m, at |-> d.at, i |-> d.i, tm |-> d.tm, tn |-> d.tn, k |-> d.k] : d \in SetOf(o.diags)},
+ObsOf(o) == [diag |-> {[m |-> d.m, line |-> d.line, k |-> d.k] : d \in SetOf(o.diags)},
              syms |-> [x \in Mods |-> SetOf(o.syms[x])],
              refs |-> [x \in Mods |-> SetOf(o.refs[x])]]
 Usable(o) == o.status = "ok"
